@@ -1,6 +1,6 @@
 (* C07 Anti-MEV phase discipline: pre-commit, pre-block, commit, block in order (node model, all reachable states). *)
 From Coq Require Import ZArith List.
-From DbftV Require Import Gates.
+From DbftV Require Import Gates P11.
 Open Scope Z_scope.
 
 (* at an anti-MEV height a Commit is broadcast only after the pre-block callback succeeded, with the node's own PreCommit
@@ -29,3 +29,18 @@ Theorem precommit_only_when_enabled cfg st ev sc st' tr s p :
   Reach cfg st -> step cfg st ev sc = Ok (st', tr) -> In (s, CBroadcast p) tr -> p_type p = PreCommitT -> amev_on cfg s = true.
 Proof. exact (fun HR Hs Hin Ty => proj1 (precommit_gate cfg st ev sc st' tr s p HR Hs Hin Ty)). Qed.
 Print Assumptions precommit_only_when_enabled.
+
+(* the final block of an anti-MEV height is built only after the pre-block callback has succeeded *)
+Theorem final_block_built_only_after_the_preblock cfg st ev sc st' tr s ok :
+  Reach cfg st -> step cfg st ev sc = Ok (st', tr) -> In (s, CNewBlock ok) tr -> amev_on cfg s = true -> preBlockProcessed s = true.
+Proof. exact (newblock_gate cfg st ev sc st' tr s ok). Qed.
+Print Assumptions final_block_built_only_after_the_preblock.
+
+(* at heights where the extension is off a received pre-commit is not acted upon (every state, every script) *)
+Theorem precommit_not_acted_upon_when_disabled cfg ic msg s0 d :
+  p_body msg = B0 (BPreCommit d) -> p_idx msg < N s0 -> p_height msg = BlockIndex s0 -> p_view msg <= ViewNumber s0 ->
+  amev_on cfg s0 = false ->
+  hx s0 (OnReceive cfg ic msg)
+     (fun _ s tr => (exists l, s = s0 <| LastSeenMessage := l |>) /\ Forall (fun sc => exists b, snd sc = CWatchOnly b) tr).
+Proof. exact (P11.precommit_while_antimev_is_off cfg ic msg s0 d). Qed.
+Print Assumptions precommit_not_acted_upon_when_disabled.
